@@ -9,7 +9,7 @@ ids = [p["id"] for p in props]
 SVM = "trusts the harness: native mini-SVM (loader serialisation, CPI privilege and post-instruction account rules re-implemented from the runtime's rules), vendored host shims of pinocchio/solana-invoke/solana-cpi/anchor-lang/solana-msg (host branches only, diff checked at set-up), real spl-token/token-2022 processors; native build of the same sources (overflow-checks off), not the SBF binary; histories are sampled"
 CHECKS = {
  "C01": ("runtime monitoring of the real instruction path: exact claim-vs-vault invariant after every instruction + differential drain on cloned state + trader-segment conservation monitor",
-         "Seeded hostile histories (liquidity changes incl. reposition, swaps in both modes/directions with and without limits and with amounts that end exactly on a tick, two-hops, fee updates, collections, setters, lifecycle operations, clock) are executed through the program's real entrypoint in a native mini-SVM. After every successful instruction an exact big-integer oracle compares each vault with the sum of all claims decoded from the bank; at checkpoints the whole pool is drained on a clone in random order and every step must succeed; consecutive swaps of one signer never net a gain. Exploration: held on the executions observed.",
+         "Seeded hostile histories (liquidity changes incl. reposition, swaps in both modes/directions with and without limits and with amounts that end exactly on a tick, two-hops, fee updates, collections, setters, lifecycle operations, clock) are executed through the program's real entrypoint in a native mini-SVM. After every successful instruction an exact big-integer oracle compares each vault with the sum of all claims decoded from the bank; at checkpoints the whole pool is drained on a clone in random order and every step must succeed; consecutive swaps of one signer never net a gain. The workload includes rewards (one in five paid in one of the pool's own tokens) with same-mint sibling vaults named in place of the right one, supplemental and read-only tick arrays, and a directed scenario collecting such a reward with the swap vault named as reward vault. Exploration: held on the executions observed.",
          SVM, "DESIGN.md#c01"),
  "C02": ("runtime oracle on compute_swap: exact-rational reference monitor over randomized hostile inputs (thorough: 24 000 of them additionally under Miri)",
          "Every successful result of the real compute_swap on millions of generated inputs (all liquidity bit-lengths, boundary prices, segment-cost +-1 amounts) is compared with an exact big-integer model of the curve, the safe-side price rounding, budget consumption and the fee formula. Exploration: a sample of an astronomically large input space, biased to the boundaries the code branches on.",
@@ -24,25 +24,25 @@ CHECKS = {
          "After every successful instruction of seeded histories the pool's liquidity, every tick's net/gross/initialized flag in every tick array (both encodings, harness-owned decoders) are recomputed from the Position accounts found by scanning the bank and compared; the workload includes Pinocchio repositions (also onto degenerate / inverted ranges, which must be refused), range resets, bundles and locks. Thorough adds the workload under an AddressSanitizer build.",
          SVM, "DESIGN.md#c05"),
  "C06": ("trace monitor: per-step swap records (verif hook) re-priced by an independent oracle and reconciled with balances, pool bookkeeping and the emitted event",
-         "For every successful swap the hook's per-step records are checked against the fee formula and summed; the sums must equal what left the trader, what entered/left the vaults, the growth of protocol fees owed, the LP fee growth (per-step liquidity) and the Traded event; both legs of every two-hop get the same per-pool checks; protocol fee collections must pay exactly the owed amounts and reset them.",
+         "For every successful swap the hook's per-step records are checked against the fee formula and summed; the sums must equal what left the trader, what entered/left the vaults, the growth of protocol fees owed, the LP fee growth (per-step liquidity) and the Traded event; both legs of every two-hop get the same per-pool checks; protocol fee collections must pay exactly the owed amounts and reset them. On transfer-fee pools the vault receives exactly curve amount + fee and, unless the trader's own exact-in amount was used up, the amount taken from the trader is the smallest one that delivers it.",
          SVM + "; per-step amounts are read from the hook inside the swap loop", "DESIGN.md#c06"),
  "C07": ("shadow-ledger monitor in exact arithmetic, independent of the program's accumulators, settled at every position update",
          "An exact ledger credits each position found in the bank with lp_fee*L_i/L_step for every in-range swap step; at every instruction that settles a position the credited fees must not exceed the ledger and may fall short only by the derived rounding bound. Fee accumulators are seeded anywhere in u128 (incl. just below wrap-around) on empty pools.",
          SVM + "; state seeding of fee_growth_global only on pools without positions or initialised ticks", "DESIGN.md#c07"),
  "C08": ("exact-arithmetic oracle on both implementations of the liquidity<->amount functions (function level) + balance-delta monitor and limit probes on cloned state for increase / decrease / by-amounts / reposition (instruction level)",
-         "The Anchor and the Pinocchio token-delta functions are run on millions of generated (price, range, +-L) cases incl. price on a bound and the shifted-tick state and compared with exact ceil/floor amounts; the liquidity-from-maxima estimate is checked for fit and maximality; in the history workload every increase/decrease/by-amounts is reconciled with the exact amounts and token_max/token_min are probed at x-1/x/x+1 on clones.",
+         "The Anchor and the Pinocchio token-delta functions are run on millions of generated (price, range, +-L) cases incl. price on a bound and the shifted-tick state and compared with exact ceil/floor amounts; the liquidity-from-maxima estimate is checked for fit and maximality; in the history workload every increase/decrease/by-amounts is reconciled with the exact amounts and token_max/token_min are probed at x-1/x/x+1 on clones. A third of the histories run over Token-2022 mints incl. transfer fees (up to 100%, pending fee changes): there the vault moves by exactly the statement's amounts, the owner pays at least / receives at most that, and a token that is not involved does not move.",
          SVM + "; tick prices come from the program's own conversion (decided by C09)", "DESIGN.md#c08"),
  "C09": ("complete enumeration of all ticks + boundary prices, random interior sample, exact integer oracle (thorough: a stride of the round trip additionally under Miri)",
          "The forward map is enumerated over all 887273 ticks (monotone, endpoints, per-step ratio within 2^-32 by exact integer inequality); the inverse is checked at every tick boundary, one unit either side, and on a dense random interior sample against a binary search in the forward table.",
          "interior prices are sampled; native build of the same sources", "DESIGN.md#c09"),
  "C10": ("trace monitor against a reference traversal of the decoded tick set + differential execution of the same swap under different packagings on cloned state",
-         "For every successful swap the initialized ticks crossed (hook trace) must equal the initialized ticks of the decoded pre-state between start and end price, in order, once, with matching liquidity; every second swap is re-executed on clones under permuted / duplicated / supplemental / read-only-supplemental / only-named / transcoded / non-PDA / foreign-pool packagings: same set of arrays => byte-identical outcome, reduced set or read-only arrays => error or a success that still crosses exactly its path, foreign array (also hidden among supplemental arrays) => error.",
+         "For every successful swap the initialized ticks crossed (hook trace) must equal the initialized ticks of the decoded pre-state between start and end price, in order, once, with matching liquidity; every second swap is re-executed on clones under permuted / duplicated / supplemental / read-only-supplemental / only-named / transcoded / non-PDA / foreign-pool packagings: same set of arrays => byte-identical outcome, reduced set or read-only arrays => error or a success that still crosses exactly its path, foreign array (also hidden among supplemental arrays) => error. Merely named arrays whose address already holds lamports must behave like merely named ones. Fee and reward growth accumulators are seeded with arbitrary values.",
          SVM, "DESIGN.md#c10"),
  "C11": ("shadow-ledger monitor over intervals between reward-updating instructions, exact arithmetic; funding-threshold probes on cloned state",
-         "Emissions x elapsed time are distributed by an exact ledger over the Position accounts in range during each interval; credited rewards must never exceed the ledger and fall short only by the derived bound; growth never moves without liquidity/initialisation/time; earlier timestamps fail; collection pays min(owed, vault); emission changes need a day of funding (probed at need and need-1).",
+         "Emissions x elapsed time are distributed by an exact ledger over the Position accounts in range during each interval; credited rewards must never exceed the ledger and fall short only by the derived bound; growth never moves without liquidity/initialisation/time; earlier timestamps fail; collection pays min(owed, vault); emission changes need a day of funding (probed at need and need-1) in the vault RECORDED for the reward, which a successful instruction must have named (rewards may be paid in one of the pool's own tokens, so the pool owns same-mint siblings).",
          SVM, "DESIGN.md#c11"),
  "C12": ("differential execution: Anchor pipeline vs Pinocchio pipeline on byte snapshots from running histories (function level) and Pinocchio route vs Anchor handlers on cloned banks (instruction level); sanitizer lanes: the function differential under Miri with full Stacked Borrows (quick and thorough), instruction-level smoke histories under Miri and the whole workload under an AddressSanitizer build (thorough)",
-         "On reachable bytes of (whirlpool, position, tick arrays) with hostile liquidity deltas and timestamps both implementations must return the same result or error number, the same update structs, token amounts and resulting bytes of all four accounts; every increase/decrease(_v2) of the histories is additionally executed through the Anchor handlers on a clone and must end in an identical bank with identical event bytes; range validation of the two position implementations is compared as well.",
+         "On reachable bytes of (whirlpool, position, tick arrays) with hostile liquidity deltas and timestamps both implementations must return the same result or error number, the same update structs, token amounts and resulting bytes of all four accounts; every increase/decrease(_v2) of the histories is additionally executed through the Anchor handlers on a clone and must end in an identical bank with identical event bytes; range validation of the two position implementations is compared as well. Position token accounts carry delegates (another user or the owner itself, amounts 0 / 1 / 2 / max) set and revoked through the real token programs.",
          SVM + "; the Anchor handlers are reached through the generated try_accounts + public handler + exit (the #[program] bodies of these instructions are unreachable!())", "DESIGN.md#c12"),
  "C13": ("exhaustive transition enumeration over a boundary slot set + random sequences, four implementations against an abstract model and a harness-owned decoder; sanitizer lanes: a slice of the same enumeration under Miri with full Stacked Borrows (quick: 16 of 64 parts, thorough: all), instruction-level smoke histories under Miri and the whole workload under an AddressSanitizer build (thorough)",
          "Every subset of the boundary slots {0,1,62,63,64,65,86,87} x every single update x the full query set is executed on Anchor fixed, Anchor dynamic, Pinocchio fixed and Pinocchio dynamic tick arrays and compared with an abstract slot map; the dynamic encoding is re-decoded by the harness after every update (bitmap, record sizes, used length, Anchor bytes == Pinocchio bytes); random sequences include fill-and-drain sweeps (array filled completely, then emptied); in situ, after every instruction of a liquidity-heavy history workload (re-initialisation attempts included) every tick-array account touched must be well formed, exactly 9988 / 148+112n bytes long, bitmap == tags, rent exempt.",
@@ -51,7 +51,7 @@ CHECKS = {
          "For every successful swap leg on adaptive-fee pools the expected reference (filter/decay/reset), the per-tick-group rate of every step, rate bounds, accumulator cap, stored accumulator, major-swap timestamp, control-factor-zero equivalence and the trade-enable gate are recomputed independently and compared; no instruction may change an oracle's trade-enable time or pool after creation (constants are updated during the histories).",
          SVM + "; major-swap threshold judged with a 2e-9 band on log price", "DESIGN.md#c14"),
  "C15": ("fault enumeration at the transaction boundary: every bound account slot x every same-kind account of another pool/mint/position/index/program, executed on cloned state",
-         "For every fund-moving instruction a golden invocation succeeds; every slot the property binds to the named pool is then replaced by every other account of the same kind found in a world of six pools over shared and disjoint mints, two configs and reward vaults holding pool mints (plus pair substitutions position+token account - funded and empty foreign positions - and two-hop pool duplication; supplemental tick arrays of swap_v2; byte-identical twins of token accounts / mints owned by look-alike non-token programs; attacker programs with look-alike ids whose CPI would succeed); each substitution must fail.",
+         "For every fund-moving instruction a golden invocation succeeds; every slot the property binds to the named pool is then replaced by every other account of the same kind found in a world of six pools over shared and disjoint mints, two configs and reward vaults holding pool mints (plus pair substitutions position+token account - funded and empty foreign positions -, another config together with its own authority while an object of the original config stays, and two-hop pool duplication; supplemental tick arrays of swap_v2; byte-identical twins of token accounts / mints owned by look-alike non-token programs; attacker programs with look-alike ids whose CPI would succeed); each substitution must fail.",
          SVM + "; bound/free classification of slots written in the harness from the property statement", "DESIGN.md#c15"),
  "C16": ("exact oracle against the token program's own fee function on both implementations (function level, incl. a hostile-TLV differential against spl-token-2022's reader, also executed under Miri with full Stacked Borrows and under ASan) + balance/withheld-amount/event monitor on Token-2022 fee pools (instruction level)",
          "Anchor and Pinocchio fee-exclusion/inclusion functions are compared with spl-token-2022's TransferFee::calculate_fee over all fee configurations, epochs around the fee switch and hostile amounts (sum, minimality, round trip, equality of implementations); in histories on fee-bearing pools the vault must receive at least the curve input and pay exactly the curve output, requests must be minimal and within maxima, minima apply to what the owner receives, swap thresholds are probed on clones against what the trader actually receives / pays, and Traded / Liquidity events must equal the amounts moved and withheld; two_hop_swap_v2 and reposition_liquidity_v2 over fee-bearing mints are judged the same way (withheld amounts, minimal requests, thresholds against what the user receives / pays, LiquidityRepositioned event).",
